@@ -2,6 +2,7 @@ package rules
 
 import (
 	"fmt"
+	"go/ast"
 	"go/token"
 	"go/types"
 	"math"
@@ -9,6 +10,7 @@ import (
 
 	"golang.org/x/tools/go/ssa"
 
+	"wtfverif/checker/internal/interval"
 	"wtfverif/checker/internal/load"
 	"wtfverif/checker/internal/origin"
 	"wtfverif/checker/internal/slicefx"
@@ -27,7 +29,7 @@ func init() {
 		Prop: "C19",
 		Explanation: "Optionality and file-safety of the embedding feature decided from the SSA form: (O-1) Database.embeddingIndex is stored only with the result of a LoadWordVectors call on the success side of its error test; every use of the field as a receiver is behind a non-nil test of the same (memory-versioned) value; applySemanticBoost is called only under HasEmbeddings(), which is exactly embeddingIndex != nil; nothing else reachable from SearchUniversal touches embedding code; " +
 			"(O-2) the only write to a score in applySemanticBoost is Score = Score * (1 + alpha*sim) under sim >= SemanticMinScore with constants 0 <= alpha < inf and SemanticMinScore >= 0 (so the factor is >= 1 and, given |cos| <= 1, <= 1+alpha), every path that can have written a score passes the Score-descending sort before returning, early exits wrote nothing; (O-3) the division in CosineSimilarity is unreachable unless len(a) == len(b) != 0 and both norms are non-zero, each guard exit returns the constant 0, and b is indexed only under the length equality; " +
-			"(O-4) every integer decoded from a file header by binary.Read that reaches a make size or capacity is bounded first: by its type (<= 16 bits), by an equality test with a trusted value, or by a dominating upper-bound test (inline or in a validator function whose failure is returned) against a quantity not taken from the header; (O-5) every read/open error in the two loaders is returned. Range and symmetry of the cosine as arithmetic, and actual memory use, are NOT decided.",
+			"(O-4) every integer decoded from a file header by binary.Read that reaches a make size or capacity is bounded first: by its type (<= 16 bits), by an equality test with a trusted value, or by a dominating upper-bound test (inline or in a validator function whose failure is returned) against a quantity not taken from the header; every integer division in the loaders and their helpers has a divisor proven non-zero for every receiver and file (receiver fields are not trusted: Index.Dimension is exported); (O-5) every read/open error in the two loaders is returned. Range and symmetry of the cosine as arithmetic, and actual memory use, are NOT decided.",
 		NotDecided:  []string{"|cos| <= 1 and symmetry as floating-point arithmetic", "real memory consumption", "that the semantic stage's factor bound holds for similarities outside [-1,1] (would need the arithmetic fact)"},
 		Assumptions: []string{"encoding/binary.Read fills exactly the fixed-size target or returns an error", "sort.Slice with a Score-descending comparator leaves the slice in non-increasing score order"},
 		Run:         runC19,
@@ -710,6 +712,95 @@ func c19Alloc(c *Ctx, sx *symx.Ctx) {
 	}
 	r.Floor("O-4", "header-sized allocations examined", nSinks, 3)
 	r.Floor("O-5", "open/read calls examined", nReads, 8)
+	c19Divisors(c, sx)
+}
+
+// c19Divisors: every integer division in the loaders and in what they call
+// inside package embedding has a divisor proven non-zero for every receiver
+// and every file: by the guards of its own function, or, for a divisor that
+// is a parameter of an unexported function, at every call site from the
+// caller's own guards. Fields of the receiver are unknown here (Index and
+// its Dimension are exported: a zero-value Index is a legal receiver), so
+// an equality with idx.Dimension proves nothing about zero.
+func c19Divisors(c *Ctx, sx *symx.Ctx) {
+	r := c.R
+	var work []*ssa.Function
+	seen := map[*ssa.Function]bool{}
+	push := func(fn *ssa.Function) {
+		if fn != nil && !seen[fn] && fn.Blocks != nil && fn.Pkg != nil && strings.HasSuffix(fn.Pkg.Pkg.Path(), "internal/embedding") {
+			seen[fn] = true
+			work = append(work, fn)
+		}
+	}
+	push(c.P.Func("internal/embedding", "", "LoadWordVectors"))
+	push(c.P.Func("internal/embedding", "Index", "LoadCommandEmbeddings"))
+	callers := map[*ssa.Function][]*ssa.Call{}
+	for i := 0; i < len(work); i++ {
+		fn := work[i]
+		for _, call := range callsMatching(fn, true, func(string) bool { return true }) {
+			if cal := call.Common().StaticCallee(); cal != nil {
+				callers[cal] = append(callers[cal], call)
+				push(cal)
+			}
+		}
+	}
+	nonZero := func(iv interval.Iv) bool {
+		return (iv.LoOK && iv.Lo > 0) || (iv.HiOK && iv.Hi < 0)
+	}
+	n := 0
+	for _, fn := range work {
+		q := interval.New(sx.Of(fn))
+		q.Strict = true
+		ord := newOrdinal()
+		ssau.ForEachInstr(fn, true, func(in ssa.Instruction) {
+			b, ok := in.(*ssa.BinOp)
+			if !ok || (b.Op != token.QUO && b.Op != token.REM) {
+				return
+			}
+			bt, ok := b.Type().Underlying().(*types.Basic)
+			if !ok || bt.Info()&types.IsInteger == 0 {
+				return
+			}
+			if _, isConst := b.Y.(*ssa.Const); isConst {
+				return // a zero constant divisor does not compile
+			}
+			n++
+			key := ord.next("embedding." + fn.Name() + "#divide")
+			pos := c.P.Pos(b.Pos())
+			if nonZero(q.At(b.Y, b.Block())) {
+				r.OK("O-4", key, pos, "divisor non-zero by the function's own guards")
+				return
+			}
+			// divisor is a parameter (possibly converted) of an unexported function
+			var par *ssa.Parameter
+			v := ssau.Strip(b.Y)
+			if cv, ok := v.(*ssa.Convert); ok {
+				v = ssau.Strip(cv.X)
+			}
+			par, _ = v.(*ssa.Parameter)
+			pi := -1
+			for i, p := range fn.Params {
+				if p == par {
+					pi = i
+				}
+			}
+			if par == nil || pi < 0 || ast.IsExported(fn.Name()) || len(callers[fn]) == 0 {
+				r.Bad("O-4", key, pos, "the divisor "+sx.Of(fn).Plain(b.Y)+" is not proven non-zero: a file header (or a zero-value Index) can make the loader panic with an integer divide by zero")
+				return
+			}
+			for _, call := range callers[fn] {
+				cf := call.Parent()
+				cq := interval.New(sx.Of(cf))
+				cq.Strict = true
+				if pi >= len(call.Common().Args) || !nonZero(cq.At(call.Common().Args[pi], call.Block())) {
+					r.Bad("O-4", key, pos, "the divisor "+par.Name()+" is not tested here and the call at "+c.P.Pos(call.Pos())+" can pass zero (header value; an equality with the receiver's exported Dimension field does not exclude zero)")
+					return
+				}
+			}
+			r.OK("O-4", key, pos, "divisor non-zero at every call site")
+		})
+	}
+	r.Floor("O-4", "integer divisions in the loaders examined", n, 1)
 }
 
 func lastArg(call *ssa.Call) ssa.Value {
